@@ -114,6 +114,49 @@ def keepalive_workers(chk, rng, stack, callers, nconn, nreq, pipelined):
     return len(recs)
 
 
+def slow_reader_large_response(chk, rng, stack, callers):
+    """a client that asked for `Connection: close` (or speaks HTTP/1.0) and reads a body of tens of MiB slowly: the proxy finishes
+    writing long before the client finishes reading, and every byte still arrives"""
+    import socket
+    size = (24 << 20) if chk.tier == "quick" else (64 << 20)
+    block = bytes(rng.below(256) for _ in range(65536))
+    body = (block * (size // 65536 + 1))[:size]
+    for variant in ("connection-close", "http/1.0"):
+        c = callers.caller(0, "curl", True)
+        conn = stack.connect(audit=(0, c["pid"], 1, e2e.IMDS[0], e2e.IMDS[1]))
+        tok = "slow-" + variant[:4]
+        stack.hosts.plans[tok] = {"status": 200, "reason": "OK", "headers": [(b"content-type", b"application/octet-stream")], "body": body, "framing": "cl"}
+        if variant == "http/1.0":
+            raw = b"GET /metadata/instance?slow=1 HTTP/1.0\r\nHost: h\r\nx-verif-token: " + tok.encode() + b"\r\n\r\n"
+        else:
+            raw = e2e.build_request("GET", "/metadata/instance?slow=1", [(b"Host", b"h"), (b"Connection", b"close"), (b"x-verif-token", tok.encode())])
+        got = bytearray()
+        reset = False
+        try:
+            conn.s.sendall(raw)
+            conn.s.settimeout(20.0)
+            time.sleep(1.0)                       # the proxy has the whole body from the host by now and is ahead of the reader
+            while True:
+                d = conn.s.recv(65536)
+                if not d:
+                    break
+                got += d
+                time.sleep(0.002)
+        except (ConnectionResetError, socket.timeout, OSError):
+            reset = True
+        conn.close()
+        stack.hosts.plans.pop(tok, None)
+        head, _, rest = bytes(got).partition(b"\r\n\r\n")
+        chk.case(nontrivial_key=("slow-reader", variant, len(rest)))
+        chk.count("slow_reader_large_responses")
+        d = {"client": variant + ", reads 64 KiB every 2 ms after a 1 s pause", "body_bytes_sent_by_host": size, "body_bytes_received": len(rest),
+             "connection_reset": reset, "status_line": head.split(b"\r\n")[0].decode("latin-1")}
+        if not head.startswith(b"HTTP/1.") or b" 200 " not in head.split(b"\r\n")[0] + b" ":
+            chk.disagreement("pipeline", d, "200 from the host", d["status_line"])
+        elif rest != body:
+            chk.violation("status/body changed on the way to the client", d, expected=(200, size), observed=(200, len(rest)))
+
+
 def host_closes_connection(chk, rng, stack, callers):
     """the host ends its connection with `Connection: close`; the client connection shares that upstream, so the next request of
     the client must not be answered by the proxy in the host's place: either the client connection ends too (the client
@@ -182,6 +225,14 @@ def run(chk):
             if case["plan"] is None and rng.chance(1, 2):
                 case["plan"] = pipegen.gen_plan(rng)
             runner.run_case(case)
+        # request heads of tens to hundreds of KiB (one long header value, many long ones, a long query string): relayed as they are
+        for k, (hsize, nh, qlen) in enumerate([(20000, 1, 0), (40000, 1, 0), (60000, 1, 0), (3000, 60, 0), (150000, 2, 0), (10, 1, 30000), (50000, 1, 20000)]):
+            hs = [(b"Host", b"h")] + [(b"x-long-%d" % i, bytes([97 + (i + j) % 26 for j in range(hsize)])) for i in range(nh)]
+            tgt = "/metadata/instance?api-version=2021" + ("&q=" + "z" * qlen if qlen else "")
+            runner.run_case({"env": {"ws": None, "imds": None, "hostga": None, "key": pipegen.KEY if k % 2 else None},
+                             "caller": callers.caller(0, "curl", True), "dest": e2e.IMDS, "label": "imds", "plan": None, "timeout": 10.0,
+                             "req": {"method": "GET", "target": tgt, "headers": hs, "body": None, "chunked": None}})
+            chk.count("large_request_heads")
         # one kept-alive connection carrying ordinary requests and uploads of the large class in turn: each is relayed as it is,
         # whatever the connection carried before
         def rq(method, target, size, chunked=None, key=True):
@@ -199,6 +250,7 @@ def run(chk):
         runner.finish(oracle)
         chk.sample(runner.describe(runner.observations[1]))
         host_closes_connection(chk, rng, stack, callers)
+        slow_reader_large_response(chk, rng, stack, callers)
         after = pipe.abort_storm(stack, callers, n=30 if chk.tier == "quick" else 200)
         chk.case(nontrivial_key=("abort-storm", after and after["status"]))
         if after is None or after["status"] != 200 or after["body"] != b"ok":
